@@ -109,6 +109,19 @@ fn is_segwit_text(s: &str) -> bool {
 pub fn check_any_string(r: &Report, s: &str, origin: &str) -> bool {
     r.trans(1);
     crate::engine::crash::crumb("address-parse", s.as_bytes());
+    // the serde string deserializer is a third text entry point: it must accept exactly what from_str accepts
+    {
+        use serde::de::IntoDeserializer;
+        use serde::Deserialize;
+        let via_serde = guard(|| {
+            let d: serde::de::value::StrDeserializer<serde::de::value::Error> = s.into_deserializer();
+            Address::deserialize(d).ok()
+        });
+        let direct = guard(|| Address::from_str(s).ok());
+        if via_serde != direct {
+            r.violation(format!("serde-string-deserializer-differs-from-from_str/{}", origin), json!({"string": s, "origin": origin}), format!("serde: {:?}; from_str: {:?}", via_serde.map(|x| x.map(|a| a.to_string())), direct.map(|x| x.map(|a| a.to_string()))));
+        }
+    }
     let res = guard(|| {
         let a = Address::from_str(s);
         let per: Vec<Result<Address, _>> = NETS.iter().map(|p| Address::parse_with_params(s, p)).collect();
